@@ -23,23 +23,23 @@ _mix = ("Contract-based deductive verification: obligations are generated from t
         "coverage.functions_under_contract). What the contracts cannot carry is covered by a bounded stand-in: the same "
         "contracts checked at run time on the real code over an enumerated family (coverage.bounded, never counted as proved). ")
 
-P("C01", "other", _mix + "Proved: search loop returns rules only after a positive has_specification; cache discipline of _ensure_level; provider wiring. Bounded: counts vs brute force on the toy universe.", [A2, L1, A7])
-P("C02", "other", _mix + "Proved: extractor self-check implies closure; one rule per key. Bounded: closure, unique lhs, independent productivity fixed point on returned specifications.", [A2, A5])
-P("C03", "other", _mix + "Proved: Function histogram invariant, smallest-gap search, shift computation, firing condition. Bounded: least-fixed-point oracle over all small rule multisets and insertion orders.", [A5])
-P("C04", "other", _mix + "Proved: dispatch, labelling and cleaning of rules before insertion. Bounded: monitor on RuleDB.add during real searches.", [A2, A4])
-P("C05", "other", _mix + "Proved: prune closure/no-empty/subset, pruned_dict root and cache discipline, has_specification. Bounded: all finders on all small rule dictionaries.", [A5, A3])
-P("C06", "other", _mix + "Proved: union-find find/union/verified contracts. Bounded: SCC oracle on all short histories.", [A5])
-P("C07", "other", _mix + "Proved: sub-object enumeration plumbing. Bounded: generated objects = brute force.", [A2, A4, L1])
-P("C08", "other", _mix + "Proved: threshold walk invariants for every randint outcome. Bounded: exact distribution with enumerated RNG.", [A2, A3, L1])
-P("C09", "other", _mix + "Proved: parameter maps and their builders. Bounded: rule terms vs brute force for every derived form.", [A2, A3, A4])
+P("C01", "other", _mix + "Proved: the search loop returns rules only after a positive has_specification for every clock schedule; cache discipline of _ensure_level and count_objects_of_size; provider wiring (set_subrecs); parameter composition of equivalence paths; compositions sound and complete. Bounded: counts vs brute force on the toy universe, 3 rule databases, all options and schedules.", [A2, L1, A7])
+P("C02", "other", _mix + "Proved: extractor self-check (closed, one rule per class); rules_up_to_equivalence; forest keys carry the labels and shifts of the rule; strategy and reverse shifts; default shifts of verification rules. Bounded: closure, unique lhs, independent productivity fixed point (own shifts) on returned specifications.", [A2, A5])
+P("C03", "other", _mix + "Proved: DefaultList, Function (histogram deltas), smallest-gap search, firing condition, initial shifts of an inserted rule, gap bookkeeping, insertion of a key (well-formedness at the call sites). Bounded: least-fixed-point oracle over small rule multisets and all insertion orders.", [A5])
+P("C04", "other", _mix + "Proved: labels of the rules recorded by _expand_class_with_strategy, _clean_labels, RuleDBBase.add, add_rule (recorded under its own labels; set_empty only for non-possibly-empty strategies). Bounded: monitor on RuleDB.add during real searches.", [A2, A4])
+P("C05", "other", _mix + "Proved: add, contains, rules_up_to_equivalence, pruned_dict root and cache discipline, has_specification, which root the tree finders and the extractor are given. Bounded: prune fixed point and all finders on all small rule dictionaries.", [A5, A3])
+P("C06", "other", _mix + "Proved: union-find against a ghost representative map (find with path compression, union by weight, verified flags, edges, one-way table rebuilt over representatives). Bounded: SCC oracle on all short histories (connect_cycles).", [A5])
+P("C07", "other", _mix + "Proved: DisjointUnion.get_sub_objects and __init__ (zero sets), EquivalenceRule.__init__ (kept child), path/equivalence constructors. Bounded: generated objects = brute force, map round trips.", [A2, A4, L1])
+P("C08", "other", _mix + "Proved: threshold walks of both random_sample_sub_objects for every randint outcome (incl. zero-skip and composition weights), Rule.random_sample_object_of_size hands count/samplers/size on. Bounded: exact distribution with enumerated RNG.", [A2, A3, L1])
+P("C09", "other", _mix + "Proved: parameter maps and their builders, CartesianProduct size bounds, compositions sound and complete, DisjointUnion.__init__, EquivalenceRule/EquivalencePathRule constructors. Bounded: rule terms vs brute force for every derived form.", [A2, A3, A4])
 P("C10", "proof", "Every obligation of the shift theorem is generated from the real source and discharged (obligations == discharged); the bounded provider-trace monitor is reported separately and not counted.", [A2, A4])
-P("C11", "other", _mix + "Proved: greedy minimisation against an abstract monotone productivity predicate. Bounded: integer universes.", [A5])
-P("C12", "other", _mix + "Proved: inverse permutation, stack discipline, symmetry of parameter matching. Bounded: bijections on toy specifications.", [A2, L1])
-P("C13", "other", _mix + "Proved: call-site obligations of _create_spec/_create_tree. Bounded: all toy pairs.", [A2])
-P("C14", "other", _mix + "Proved: contains, key flattening, RecomputingDict key-set operations. Bounded: lock-step of both databases.", [A2, A5])
+P("C11", "other", _mix + "Proved: pumping_subuniverse, preimage, is_pumping, forest keys, add_rule_key, _is_productive, _find_rule, bookkeeping of _minimize_key (a rule is kept only after the productivity test without it failed), order check-then-rules. Bounded: 1-minimality and productivity on integer universes and real searches (monotonicity lemma L3 is assumed, not proved).", [A5])
+P("C12", "other", _mix + "Proved: inverse permutation, stack discipline, inverse tables of Bijection.__init__, orientation of map/inverse_map, atoms matched only at equal size. Bounded: bijections on toy specifications (map onto, inverse undoes).", [A2, L1])
+P("C13", "other", _mix + "Proved: _create_spec rooted at the start label, _eq_path_matches (same length and pairwise match). Bounded: all toy pairs, both finders.", [A2])
+P("C14", "other", _mix + "Proved: contains, key flattening (round-trip lemma), RecomputingDict key-set operations, add in both databases against one contract. Bounded: lock-step of both databases on two universes.", [A2, A5])
 P("C15", "proof", "Every public ClassDB operation is verified against the abstract view (list of keys, emptiness list) with frames; obligations == discharged. Interleaving enumeration is reported separately and not counted.", [A2, A3])
-P("C16", "other", _mix + "Proved: hand-out guard, flag/level bookkeeping. Bounded: all short histories.", [A5])
-P("C17", "other", _mix + "Proved: ownership/frame and interruption-point obligations. Bounded: pickle/time-limit at every prefix.", [A3, A7])
-P("C18", "other", _mix + "Proved: key-set match of to_jsonable/from_dict pairs, strategy equality. Bounded: round trips.", [A2, A3])
-P("C19", "other", _mix + "Proved: expand_verified exit condition and frames. Bounded: toy specifications with verified classes.", [A2, A3])
-P("C20", "other", _mix + "Proved: substitution maps and dispatch only; the series statement is bounded (sympy is outside SMT reach).", [A2, A3])
+P("C16", "other", _mix + "Proved: hand-out guard of __next__, add, set_* flags, _iter_helper_working (whole yield sequence). Bounded: level changes and completeness of scheduling on all short histories.", [A5])
+P("C17", "other", _mix + "Proved: verified status and class are looked up at the moment of each packet (_expand_classes_for), __eq__/pickle structure (AST obligations). Bounded: pickle/time-limit at every prefix, slicing independence.", [A3, A7])
+P("C18", "other", _mix + "Proved: key sets of every to_jsonable/from_dict pair (rules, strategies, packs, specifications), loaded verification rules rebuilt by the strategy, bijection JSON maps. Bounded: round trips.", [A2, A3])
+P("C19", "other", _mix + "Proved: unexpanded_verified_classes yields exactly the expandable classes, expand_verified exit condition and frame, configuration of the inner searcher. Bounded: toy specifications with (nested) verified classes.", [A2, A3])
+P("C20", "other", _mix + "Proved: substitutions of union/product equations, refusal of quotient/complement equations iff some child has parameters, argument order of Rule.get_equation. Bounded: coefficientwise series check (sympy is outside SMT reach).", [A2, A3])
